@@ -2,7 +2,7 @@
    Only statements, closed by [exact] or a few lines of glue, with Print Assumptions.
    Impl = Index/SatIndex.v [run] (updater.rs with --index-sats, one UTXO map);
    Spec = [bip_run], the transcription of the Python of bip.mediawiki over flat lists of sats. *)
-From OrdV Require Import Base.Prelude Generated Index.SatIndex Proofs.SatIndex_proofs.
+From OrdV Require Import Base.Prelude Generated Index.SatIndex Index.SatCache Proofs.SatIndex_proofs Proofs.SatCache_proofs.
 
 (* For every chain the model indexes (which includes every valid chain, next theorem): the sats of
    every unspent output, flattened in order, are exactly the sats the BIP algorithm assigns to it;
@@ -59,6 +59,42 @@ Theorem C01_displaced_recorded : forall e ents t v0 m d old,
   exists d', snd (put_outputs t v0 (e :: ents) m d) = (d ++ old) ++ d'.
 Proof. exact put_outputs_destroyed_first. Qed.
 
+(* The code splits the UTXO map into utxo_cache + table and commits after some of the blocks
+   (Index/SatCache.v, [run2 sched]: any schedule).  Known finding dup-spent-before-commit is the class
+   [c_shadow = true]: some spent input was found in the cache while the table also held an entry
+   for the same outpoint (needs a duplicate txid).  Outside the class, whatever the schedule, the
+   index holds for every outpoint exactly the BIP's sats, and the BIP's lost sats. *)
+Theorem C01_except : forall sched c s2,
+  run2 sched c = Ok s2 -> c_shadow (s_c s2) = false ->
+  (forall o, option_map flatten (view (s_c s2) o) = aget op_eqb o (b_utxo (bip_run 0 bip_init c))) /\
+  flatten (s_lost s2) = b_lost (bip_run 0 bip_init c).
+Proof.
+  intros sched c s2 H F. destruct (cache_split_unobservable sched c s2 H F) as [st [R [V [L _]]]].
+  destruct (C01_refines c st R) as [_ [U B]]. split.
+  - intros o. rewrite V. apply U.
+  - rewrite L. exact B.
+Qed.
+
+(* Inside the class the statement fails: identical coinbases (txid 2) in blocks 1 and 2, commit
+   after block 1, blocks 2 and 3 in one batch, block 3 spends 2:0.  The table keeps 2:0 with the sats
+   of block 1, which the BIP (= the one-map model, C01_refines) has destroyed, and 2:0 is spent. *)
+Definition dup_spent_chain : list (list tx) :=
+  [ [mkTx 1 [] [(5000000000, 3)]]; [mkTx 2 [] [(5000000000, 4)]]; [mkTx 2 [] [(5000000000, 4)]];
+    [mkTx 3 [] [(0, 0)]; mkTx 4 [(2, 0)] [(5000000000, 5)]] ].
+
+Lemma C01_known_refuted :
+  exists s2 st, run2 [true; true; false; true] dup_spent_chain = Ok s2 /\ c_shadow (s_c s2) = true /\
+    run dup_spent_chain = Ok st /\ valid dup_spent_chain = true /\
+    view (s_c s2) (2, 0) = Some [(5000000000, 10000000000)] /\ aget op_eqb (2, 0) (utxo st) = None /\
+    destroyed st = [(5000000000, 10000000000)].
+Proof.
+  destruct (run2 [true; true; false; true] dup_spent_chain) as [s2| |] eqn:E2; [|vm_compute in E2; discriminate|vm_compute in E2; discriminate].
+  destruct (run dup_spent_chain) as [st| |] eqn:E1; [|vm_compute in E1; discriminate|vm_compute in E1; discriminate].
+  exists s2, st. split; [reflexivity|].
+  vm_compute in E2. inversion E2; subst. vm_compute in E1. inversion E1; subst.
+  vm_compute. repeat split.
+Qed.
+
 (* Non-vacuity: block 1 = coinbase (txid 2) paying 30 + 10 coins; block 2 = a transaction (txid 4)
    spending both outputs into 35 coins + 4 coins with a 1-coin fee (the first output is split across
    the two inputs), and a two-output coinbase (txid 3) claiming 50 coins of the 51 available. *)
@@ -87,3 +123,5 @@ Print Assumptions C01_output_slice.
 Print Assumptions C01_subsidy_is_bip.
 Print Assumptions C01_duplicate_txid_displaces.
 Print Assumptions C01_displaced_recorded.
+Print Assumptions C01_except.
+Print Assumptions C01_known_refuted.
